@@ -234,7 +234,7 @@ func (f *defaultFactory) doCreateComponent(name string, meta *component_definiti
 				f.logger().Tracef("early singleton reference with name '%s' has been injected into components %s", name, dependents)
 				var actualDependents []string
 				for _, dependent := range dependents {
-					if !f.singletonComponentRegistry.IsSingletonCurrentlyInCreation(dependent) {
+					if dependent == name || !f.singletonComponentRegistry.IsSingletonCurrentlyInCreation(dependent) {
 						actualDependents = append(actualDependents, dependent)
 					}
 				}
